@@ -17,12 +17,23 @@ CHECKS = {
             'identifier styles are compiled with the real JSON back end; the document must parse, hold exactly the '
             'declared symbols and each entry must carry its own declaration\'s class, node type, status, access, units, '
             'revisions.', '5.C03'),
+    'C04': ('bounded exhaustive enumeration of declaration sequences, cross-module uses and adversarial identifiers; generated '
+            'Python executed against a recording builder and loaded by the real pysnmp MibBuilder; compared with the JSON back end',
+            'Every declaration sequence (<=2 / <=3 over 13 kinds), every way module B can use a symbol of module A (11 uses x 3 '
+            'name styles) and 14 adversarial identifiers are compiled by both back ends; the pysnmp text must be valid Python, '
+            'bind and export every JSON entry under its MIB name with equal OID, kind, base type and access, import only '
+            'symbols the other generated module exports, and load in the real MibBuilder.', '5.C04'),
     'C05': ('bounded exhaustive enumeration of syntaxes, refinements, type chains and DEFVAL notations against a '
             'denotational reference model, both back ends',
             'Every type word x grammar-allowed refinement (lists of 1..2/3 alternatives over literal classes) x placement, '
             'and every DEFVAL notation x base type x type-chain shape (inline / derived / TC / imported) is compiled; '
             'constraints must be equal in order and value, defaults must denote the written value under the base type '
             'resolved by an independent walker; pysnmp output is executed against a recording builder.', '5.C05'),
+    'C15': ('complete product of text slots x adversarial text alphabet x genTexts x text filter on both back ends',
+            'All 27 text-bearing clause slots x 23 texts (backslash sequences, quotes, line breaks, non-ASCII, long words, '
+            'template syntax, empty) x genTexts on/off x default/identity filter: gated keys absent without genTexts, JSON text '
+            'equal (exactly / as word sequence), pysnmp module valid Python whose executed set*() argument equals the source '
+            'as a word sequence.', '5.C15'),
     'C02': ('bounded exhaustive enumeration of MIB specs x layouts against a reference model of the parser',
             'Every catalogue spec (all clause kinds x optional-part subsets, all SYNTAX alternatives, numeric token '
             'classes at their boundaries) is rendered and parsed by the real parser under all three dialects; the tree '
